@@ -22,13 +22,14 @@ MANIFEST = dict(
         "non-constant columns, constant columns mapped to 0 (unitvariance_output, sqrt specified); unit-interval normaliser: range [0,1] attained, "
         "constant columns to 1/2 for the repaired trainer, and a witness theorem that the pinned source maps a constant column v to 1/2 - v (F-C15-1); "
         "whitening: covariance t*I given the factor specification C*Cov*C^T = I (whitening_output, linear_image_covariance), which ZCA's Q*diag(1/sqrt D)*Q^T "
-        "meets given the eigen-solver specification (zca_output, regular covariance); PCA: orthonormal directions "
-        "=> decoder(encoder(x)) is idempotent, its residual is orthogonal to all directions and it is the closest point of mean+span (pca_projection); "
+        "meets given the eigen-solver specification (zca_output_partial: regular covariance only, witness zca_partial_witness); PCA: orthonormal directions "
+        "=> decoder(encoder(x)) is idempotent, its residual is orthogonal to all directions and it is the closest point of mean+span (pca_projection; "
+        "pca_projection_general for systems whose columns are unit or zero vectors, as the repaired small-sample branch returns); "
         "small-sample branch: eigenvectors of XX^T/l lift to eigenvectors of the covariance with the same eigenvalue and squared norm l*lambda "
         "(pca_small_sample_agrees, pca_small_sample_agrees_model), encoded training data have covariance diag(eigenvalues) (pca_encoded_covariance) and, with whitening, diag(1,..,1,0,..) "
         "(pca_whitened_covariance); "
         "LDA: with z_c*C = m_c the installed linear discriminant ranks classes exactly like the Gaussian log-posterior with shared covariance C "
-        "(lda_bayes_rule), statistics batch independent (lda_batch_independent); weighted LDA statistics are invariant under scaling all weights "
+        "(lda_bayes_rule_partial: excludes singular covariances whose range misses the class means, witness lda_partial_witness), statistics batch independent (lda_batch_independent); weighted LDA statistics are invariant under scaling all weights "
         "(weights_scale_invariant); FisherLDA's global mean sum_c n_c m_c / n is the mean of the inputs (fisher_mean; the pinned source divides twice, F-C15-6). "
         "The model (Model/Trainers.lean) is tied to the real trainers on every run by a differential correspondence on integer datasets with explicit "
         "batch partitions: values the model determines are compared EXACTLY when FE_INEXACT stayed clear during the Shark call and with relative "
